@@ -295,6 +295,21 @@ def run(rep, tier, seed):
                 'SEQUENCE OF / SET OF, nested) with a hand-written admissibility table; non-trivial = accepted and type depth>=1')
     rep.assumptions = ['constraints are exercised on a fixed family of constrained types, not generated', 'text codecs trusted']
     check_constrained(rep)
+    # corpus: untagged CHOICEs nested directly in CHOICEs (two and three levels), also as record members and elements
+    from harness import sexp_types
+    for ts, vs in [("(choice (r (str 4)) (r (choice (r int) (r bool))))", "(ch 1 (ch 0 (i 5)))"),
+                   ("(choice (r (str 4)) (r (choice (r int) (r bool))))", "(ch 1 (ch 1 (b 1)))"),
+                   ("(choice (r null) (r (choice (r (choice (r oid) (r real))) (r int))))", "(ch 1 (ch 0 (ch 0 (oid 1 2 3))))"),
+                   ("(seq (r (choice (r (str 4)) (r (choice (r int) (r bool))))) (r int))", "(seq (ch 1 (ch 1 (b 0))) (i 3))"),
+                   ("(seqof (choice (r (tag e c 0 (choice (r int) (r bool)))) (r (choice (r (str 12)) (r null)))))", "(of (ch 0 (ch 0 (i 1))) (ch 1 (ch 1 null)))")]:
+        c = engine.Case(sexp_types.ty_of_sexp(gen.parse_sexps(ts)[0]), gen.val_of_sexp(gen.parse_sexps(vs)[0]))
+        for mode in (('ber', True, 0), ('ber', False, 0), ('der', True, 0)):
+            ie = codec.impl_encode(mode[0], c.t, c.v, mode[1], mode[2], obj=c.fresh_obj())
+            if ie[0] != 'ok':
+                continue
+            rep.case('corpus ' + c.canon + ' ' + mode[0], nontrivial=True)
+            for cdc in ('ber', 'cer', 'der'):
+                check_accepted(rep, drv, c.t, c.schema, ie[1], cdc, 'corpus')
     for case in engine.gen_cases(rng, n, max_depth=3, allow_any=True):
         if not engine.representable(case) or has_empty_record(case.t):
             # a record type without members cannot be declared in the library (an empty componentType means
